@@ -5,7 +5,7 @@ package cli
 // Contracts for package cli (comment-only; checked by /verif/engine).
 
 // Parse returns exactly one of: an error, *Help, *Generate, *Version
-//@ func Parse
+//@ func Parse(args)
 //@   props C17 C13
 //@   ensures err != nil ==> result == nil
 //@   ensures err == nil ==> result != nil && (dynIs[*Help](result) || dynIs[*Generate](result) || dynIs[*Version](result))
@@ -13,7 +13,7 @@ package cli
 //@   ensures err == nil && dynIs[*Generate](result) ==> unboxed[*Generate](result).Config != nil && unboxed[*Generate](result).Config.EnumTransformers != nil
 
 // CLI defaults: -build-tags goverter, -output-constraint !goverter; every -g/-global value becomes a global line
-//@ func parseGen
+//@ func parseGen(cmd, args)
 //@   props C17 C16 C12 C13
 //@   at@C16 call fs.String#1 assert arg0 == "build-tags" && arg1 == "goverter"
 //@   at@C16 call fs.String#2 assert arg0 == "output-constraint" && arg1 == "!goverter"
@@ -26,12 +26,12 @@ package cli
 //@   ensures err == nil ==> result != nil && (dynIs[*Help](result) || dynIs[*Generate](result))
 //@   ensures err == nil && dynIs[*Generate](result) ==> unboxed[*Generate](result).Config != nil && unboxed[*Generate](result).Config.EnumTransformers != nil
 
-//@ func usageErr
+//@ func usageErr(err, cmd)
 //@   props C17
 //@   ensures result != nil
 
 // exit status: usage error -> stderr + exit 1; help -> exit 0; generation error -> stderr + exit 1; otherwise normal return
-//@ func Run
+//@ func Run(args, opts)
 //@   props C17 C13 C16
 // the configuration that was parsed from the command line (build tags, output constraint, patterns, -g lines,
 // working directory) is what generation runs with
